@@ -58,6 +58,10 @@ def cases(tier, seed):
         for src in ("dipole", "none") if tier != "quick" else ("dipole",):
             TT = T if np.prod(shape) <= 50 else 3  # symbolic permittivities: term degree grows with 2T, >50 cells stay at 3 steps
             out.append(dict(name=f"{name}-{src}", shape=shape, bounds=b, thickness=th, src=src, T=TT, nonuniform="nonuniform" in name))
+    # H-injecting sources behind non-default on/off switches: a plane source whose window closes inside the run and a
+    # magnetic dipole that is on at the final step only (the reverse sweep crosses both switch edges; seeded change C03b)
+    name, shape, b, th = _scenes(tier)[0]
+    out.append(dict(name=f"{name}-switched", shape=shape, bounds=b, thickness=th, src="switched", T=T if tier == "quick" else 4, nonuniform=False))
     return out
 
 
@@ -79,6 +83,11 @@ def run_case(c, case):
     if case["src"] == "dipole":
         pos = tuple(int(v) for v in interior[len(interior) // 2])
         srcs = [dipole("dip", pos, pol=int(np.argmax(shape)) % 3)]
+    if case["src"] == "switched":
+        zs = sorted({int(v[2]) for v in interior})
+        pos = tuple(int(v) for v in interior[0])
+        srcs = [plane_source("pl", 2, zs[len(zs) // 2], "+", switch=fdtdx.OnOffSwitch(fixed_on_time_steps=list(range(0, T - 1)))),
+                dipole("mdip", pos, pol=1, kind="magnetic", switch=fdtdx.OnOffSwitch(fixed_on_time_steps=[T - 1]))]
     S = build_scene(shape, b, thickness=case["thickness"], steps=T, reversible=True, extra_objects=srcs, widths=ws)
     arr, oc, cfg, key = S["arrays"], S["objects"], S["config"], S["key"]
     c.functions.update(META["functions"])
